@@ -189,6 +189,10 @@ def main(run):
     texts.append(("resubmitted", BASE))
     cases.append({"id": len(cases), "base": BASE, "mid": MID, "text": BASE})
     mid_rules = {"b": (7, "dm"), "z": (1, "dm")}
+    # a pool cleared, refilled by an incremental update, cleared AGAIN: it is empty again — the next text (incremental or full) starts from nothing
+    for t in [rule_text("c", 3, "dq"), rule_text("b", 7, "dq") + "\n" + rule_text("n", 2, "dq"), rule_text("z", 1, "dq", "return 9")] + [valid_text(rng)[0] for _ in range(2 if run.tier == "quick" else 10)]:
+        texts.append(("after-second-clear@empty", t))
+        cases.append({"id": len(cases), "base": "", "mid": MID, "reclear": True, "text": t})
     # texts submitted to a state that a REMOVAL produced (rules before, between and after the survivors removed; absent names):
     # the incremental entry points must merge into the denoted set minus the removed names, the full ones replace it
     rm_texts = [rule_text("b", 0, "dr", "return 2"), rule_text("q", -2, "dr", "return 2"), rule_text("q", 8, "dr"), rule_text("b", 0, "dr") + "\n" + rule_text("q", -2, "dr"),
@@ -301,7 +305,7 @@ def main(run):
         sig = {"kind": "compile-text", "symptom": code}
         if code == "disagree":
             sig["accepting"] = sorted(k for k, v in detail.items() if v)
-        run.report(sig, {"base": cases[cid]["base"], "mid": cases[cid].get("mid", ""), "rm": cases[cid].get("rm", []), "text": texts[cid][1], "stream": texts[cid][0], "detail": detail, "observation": obs[cid]},
+        run.report(sig, {"base": cases[cid]["base"], "mid": cases[cid].get("mid", ""), "rm": cases[cid].get("rm", []), "reclear": cases[cid].get("reclear", False), "text": texts[cid][1], "stream": texts[cid][0], "detail": detail, "observation": obs[cid]},
                    "C10: %s for the text %r: %s" % (code, texts[cid][1][:160], str(detail)[:300]))
     if reader_problems and not run.violations:
         # the reader model no longer decides the language the builder accepts: by itself that is no text on which the entry
@@ -319,7 +323,7 @@ def main(run):
     cov = run.coverage
     cov["discharged"] += (1 if ok and not bad else 0) + (0 if problems or reader_problems else 1)
     cov.update({"evaluations": len(texts) * 5, "distinct_nontrivial": len(nontrivial),
-                "rule": "truncations first: token-boundary prefixes and suffixes of a valid two-rule text and 20 keyword-only / cut-off headers (where the parser's error recovery has nothing left to consume); then three streams: valid multi-rule texts over 11 body shapes (~38%), token-level mutations of valid texts — delete / replace / insert / swap of 1-3 tokens over a 70-token vocabulary with unknown characters, keyword case variants, unterminated strings and comments, huge literals (~32%), character-level edits of valid texts — delete / insert / replace 1-3 characters over letters, digits, dots, quotes, operators, brackets and white space, which exercise longest-match tokenisation (~15%), arbitrary bytes incl. NUL and non-ASCII (~15%), plus 16 fixed texts; every text is submitted to all five entry points from a known 3-rule state, and every third text (and all fixed texts) also from the EMPTY state (fresh builder / cleared pool); 7 redefining / adding texts and some valid ones are also submitted to the states six REMOVALS leave (first, middle, last rule, two rules, an absent name, a mix); "
+                "rule": "truncations first: token-boundary prefixes and suffixes of a valid two-rule text and 20 keyword-only / cut-off headers (where the parser's error recovery has nothing left to consume); then three streams: valid multi-rule texts over 11 body shapes (~38%), token-level mutations of valid texts — delete / replace / insert / swap of 1-3 tokens over a 70-token vocabulary with unknown characters, keyword case variants, unterminated strings and comments, huge literals (~32%), character-level edits of valid texts — delete / insert / replace 1-3 characters over letters, digits, dots, quotes, operators, brackets and white space, which exercise longest-match tokenisation (~15%), arbitrary bytes incl. NUL and non-ASCII (~15%), plus 16 fixed texts; every text is submitted to all five entry points from a known 3-rule state, and every third text (and all fixed texts) also from the EMPTY state (fresh builder / cleared pool); five texts are submitted to a pool that was cleared, refilled incrementally and cleared again; 7 redefining / adding texts and some valid ones are also submitted to the states six REMOVALS leave (first, middle, last rule, two rules, an absent name, a mix); "
                         "checked: returned normally (no panic / crash), pairwise accept/reject agreement, the same compiled tree (positions included) for every rule of an accepted text through every entry point, the full build's verdict and installed names / saliences / descriptions equal to those the reader model (Lang/Reader.v, evaluated inside Coq on the text) computes, exact state equality on reject, on accept the state equals the replacement / merge of the rules the text defines, sortedness and index consistency afterwards; "
                         "distinct non-trivial = distinct texts that are valid with >= 2 rules, or mutated, or on which the entry points disagree",
                 "reader_model": {"texts_decided_inside_coq": len(rcs) - runsup, "outside_model_domain": runsup, "disagreements": len(reader_problems)},
@@ -333,7 +337,7 @@ def main(run):
 
 def replay(run, data):
     build_harness()
-    st, out, err = run_harness_child("compile", [{"id": 0, "base": data["replay"]["base"], "mid": data["replay"].get("mid", ""), "rm": data["replay"].get("rm", []), "text": data["replay"]["text"]}], timeout=60)
+    st, out, err = run_harness_child("compile", [{"id": 0, "base": data["replay"]["base"], "mid": data["replay"].get("mid", ""), "rm": data["replay"].get("rm", []), "reclear": data["replay"].get("reclear", False), "text": data["replay"]["text"]}], timeout=60)
     print(st, json.dumps(out)[:1500] if out else err)
     if st != "ok":
         return 1
